@@ -18,7 +18,6 @@ TRUSTED = [
 ASSUME = [
     "fields are finite; intensities are coarse dyadic rationals so that no cell sits on a rounding knife-edge (as the property states)",
     "Otsu: the float argmax may resolve exact ties differently from exact arithmetic; the implementation's threshold is accepted when it is a bin centre whose exact between-class variance is within 1e-9 of the maximum",
-    "affine invariance under the Otsu rule is proved in Proofs/Otsu.v (separate file) and checked numerically here",
 ]
 RULE = ("fields: rendered emulsions + dyadic noise on Cartesian grids d=1..3 (3..10 cells per axis, periodic or not), values multiples of 2^-10; "
         "rules extrema/auto/mean/otsu/numeric, minimal radii from the radii present; affine maps a=2^k, b dyadic; "
@@ -139,7 +138,7 @@ RULES = ["extrema", "auto", "mean", "otsu"]
 
 def check(ctx: vlib.Ctx) -> int:
     rng = random.Random(ctx.seed)
-    ok = vlib.prove(ctx, ["Proofs/C18.vo", "Model/OverlapCases.vo"], gens=["Gen_analysis"])
+    ok = vlib.prove(ctx, ["Proofs/C18.vo", "Proofs/Otsu.vo", "Model/OverlapCases.vo"], gens=["Gen_analysis"])
     ctx.tie.append("translator (Gen_analysis regenerated from /repo) + correspondence of masks / thresholds / size filter inside Coq")
     from droplets.image_analysis import locate_droplets, threshold_otsu
     nfields = ctx.scale(120, 1200)
@@ -197,14 +196,14 @@ def check(ctx: vlib.Ctx) -> int:
               "Local Open Scope Q_scope.\n"
               "Fixpoint beq_list (a b : list bool) : bool := match a, b with [] , [] => true | x :: a', y :: b' => Bool.eqb x y && beq_list a' b' | _, _ => false end.\n"
               "Definition agree_mask (c : thr_rule * Q * list Q * list bool) : bool :=\n"
-              "  let '(r, x, l, m) := c in beq_list (mask_of r x l) m.\n"
+              "  let '(r, x, l, m) := c in beq_list (mask_eval r x l) m.\n"
               "Definition agree_otsu (c : Q * list Q * Q * list bool) : bool :=\n"
               "  let '(x, l, t, m) := c in otsu_accepts x l t && beq_list (map (fun v => mask_cell v t) (x :: l)) m.\n")
     if ok:
         bad = vlib.run_cases(ctx, "mask", header, mask_cases, "agree_mask", shard=150)
         for k in bad[:3]:
             ctx.broken.append(f"correspondence mask: model and implementation differ for rule {meta[k][1]} on field {meta[k][0][:8]}... shape {meta[k][2]}")
-        bad = vlib.run_cases(ctx, "otsu", header, otsu_cases, "agree_otsu", shard=40)
+        bad = vlib.run_cases(ctx, "otsu", header, otsu_cases, "agree_otsu", shard=8)
         if bad:
             ctx.broken.append(f"correspondence otsu: {len(bad)} field(s) where threshold_otsu is not an (almost) maximising bin centre or the mask differs; first {bad[0]}")
         bad = vlib.run_cases(ctx, "filter", header, rs_cases, "rs_agree", shard=400)
